@@ -175,7 +175,11 @@ def parse_graphic_sequence(
                 current_set.append(items[idx])
             left_in_set -= 1
             if left_in_set <= 0:
-                output.append(AnsiSetting(current_set))
+                setting = AnsiSetting(current_set)
+                # Unless erroneous items are requested, only keep what is guaranteed parsable (or RESET), i.e. drop
+                # unknown codes and color functions with an argument out of range (ex: 38;5;256)
+                if add_erroneous or setting.parsable or current_set == [AnsiParam.RESET.value]:
+                    output.append(setting)
                 current_set = []
         elif add_erroneous:
             output.append(AnsiSetting(value))
